@@ -685,6 +685,9 @@ type fnStat struct {
 }
 
 func less(a, b Tuple) bool {
+	if a.hasBlank() != b.hasBlank() {
+		return !a.hasBlank() // prefer a blank-free witness
+	}
 	la, lb := len(a.Args()), len(b.Args())
 	if la != lb {
 		return la < lb
